@@ -479,4 +479,122 @@ theorem protectInstall_sound (s : Settings) (live : Live) (install : ICSet) :
   · obtain ⟨he1, he2⟩ := List.mem_filter.1 he
     exact Or.inr ⟨e, he1, he2, rfl⟩
 
+/-! ## the renamed entry is really there -/
+
+theorem chooseCount_le (c : Content) (ps : List (Nat × Content)) (cnt : Nat) (h : cnt ≤ 9999)
+    (hq : ∀ p ∈ ps, p.1 < 9999) : chooseCount cnt ps c ≤ 9999 := by
+  induction ps generalizing cnt with
+  | nil => simpa [chooseCount] using h
+  | cons q qs ih =>
+    obtain ⟨k, pc⟩ := q
+    unfold chooseCount
+    have hk : k < 9999 := hq (k, pc) (by simp)
+    split
+    · omega
+    · exact ih _ (by omega) (fun p hp => hq p (by simp [hp]))
+
+/-- pending numbers stay below 9999, so the chosen number keeps four digits -/
+theorem chooseCount_lt (live : Live) (hsmall : ∀ g ∈ live, ∀ k fn, parseCfg g.base = some (k, fn) → k < 9999)
+    (dir : Path) (fname : List Char) (c : Content) : chooseCount 0 (pendingFor live dir fname) c < 10000 := by
+  have := chooseCount_le c (pendingFor live dir fname) 0 (by omega) (by
+    intro p hp
+    obtain ⟨k, pc⟩ := p
+    obtain ⟨g', hg', _, hparse, _⟩ := of_mem_pendingFor hp
+    exact hsmall g' hg' k _ hparse)
+  omega
+
+theorem mem_idictSet_self (c : ICSet) (e : IEntry) : e ∈ idictSet c e := by
+  induction c with
+  | nil => simp [idictSet]
+  | cons x xs ih =>
+    unfold idictSet
+    split
+    · simp
+    · simp [ih]
+
+theorem mem_idictSet_of_mem {c : ICSet} {e g : IEntry} (hg : g ∈ c) (hne : ¬ (g.dir = e.dir ∧ g.base = e.base)) :
+    g ∈ idictSet c e := by
+  induction c with
+  | nil => cases hg
+  | cons x xs ih =>
+    unfold idictSet
+    rcases List.mem_cons.1 hg with rfl | hg'
+    · rw [if_neg hne]; simp
+    · split
+      · simp [hg']
+      · simp [ih hg']
+
+theorem mem_idictDel_of {c : ICSet} {d : Path} {b : List Char} {g : IEntry} (hg : g ∈ c)
+    (hne : ¬ (g.dir = d ∧ g.base = b)) : g ∈ idictDel c d b :=
+  List.mem_filter.2 ⟨hg, decide_eq_true hne⟩
+
+theorem protectFold_persist (live : Live) (l : List IEntry) (acc : ICSet × List (IEntry × IEntry)) (x : IEntry)
+    (hx : x ∈ acc.1)
+    (hne : ∀ e ∈ l, ¬ (x.dir = e.dir ∧ x.base = e.base) ∧ ¬ (x.dir = (renamed live e).dir ∧ x.base = (renamed live e).base)) :
+    x ∈ (protectFold live l acc).1 := by
+  induction l generalizing acc with
+  | nil => exact hx
+  | cons e es ih =>
+    apply ih
+    · exact mem_idictSet_of_mem (mem_idictDel_of hx (hne e (by simp)).1) (hne e (by simp)).2
+    · intro e' he'; exact hne e' (by simp [he'])
+
+theorem renamed_base (live : Live) (e : IEntry) :
+    (renamed live e).dir = e.dir ∧ (renamed live e).isReg = e.isReg ∧ (renamed live e).content = e.content ∧
+      (renamed live e).base = cfgName (chooseCount 0 (pendingFor live e.dir e.base) e.content) e.base :=
+  ⟨rfl, rfl, rfl, rfl⟩
+
+/-- two entries renamed to the same name in the same directory have the same original name -/
+theorem renamed_key_inj (live : Live) (hsmall : ∀ g ∈ live, ∀ k fn, parseCfg g.base = some (k, fn) → k < 9999)
+    (e e' : IEntry) (hd : (renamed live e).dir = (renamed live e').dir)
+    (hb : (renamed live e).base = (renamed live e').base) : e.dir = e'.dir ∧ e.base = e'.base := by
+  refine ⟨hd, ?_⟩
+  have h1 := parseCfg_cfgName _ (chooseCount_lt live hsmall e.dir e.base e.content) e.base
+  have h2 := parseCfg_cfgName _ (chooseCount_lt live hsmall e'.dir e'.base e'.content) e'.base
+  have hb' : cfgName (chooseCount 0 (pendingFor live e.dir e.base) e.content) e.base =
+      cfgName (chooseCount 0 (pendingFor live e'.dir e'.base) e'.content) e'.base := hb
+  rw [hb', h2] at h1
+  simp only [Option.some.injEq, Prod.mk.injEq] at h1
+  exact h1.2.symm
+
+theorem protectFold_renamed_mem (live : Live) (hsmall : ∀ g ∈ live, ∀ k fn, parseCfg g.base = some (k, fn) → k < 9999)
+    (l : List IEntry) (hnd : (l.map fun e => (e.dir, e.base)).Nodup) (hno : ∀ e ∈ l, parseCfg e.base = none)
+    (acc : ICSet × List (IEntry × IEntry)) (e : IEntry) (he : e ∈ l) :
+    renamed live e ∈ (protectFold live l acc).1 := by
+  induction l generalizing acc with
+  | nil => cases he
+  | cons e0 es ih =>
+    have hnd' := List.nodup_cons.1 (show ((e0.dir, e0.base) :: es.map fun e => (e.dir, e.base)).Nodup from hnd)
+    rcases List.mem_cons.1 he with rfl | he'
+    · -- added now, persists through the rest
+      show renamed live e ∈ (protectFold live es _).1
+      apply protectFold_persist
+      · exact mem_idictSet_self _ _
+      · intro e2 he2
+        constructor
+        · rintro ⟨_, hb⟩
+          have h1 := parseCfg_cfgName _ (chooseCount_lt live hsmall e.dir e.base e.content) e.base
+          have : (renamed live e).base = e2.base := hb
+          rw [(renamed_base live e).2.2.2] at this
+          rw [this, hno e2 (by simp [he2])] at h1
+          cases h1
+        · rintro ⟨hd, hb⟩
+          obtain ⟨h1, h2⟩ := renamed_key_inj live hsmall e e2 hd hb
+          exact hnd'.1 (List.mem_map.2 ⟨e2, he2, by rw [h1, h2]⟩)
+    · exact ih hnd'.2 (fun x hx => hno x (by simp [hx])) _ he'
+
+theorem inj_of_nodup_map {α β : Type} (k : α → β) (l : List α) (h : (l.map k).Nodup) {x y : α}
+    (hx : x ∈ l) (hy : y ∈ l) (hk : k x = k y) : x = y := by
+  induction l with
+  | nil => cases hx
+  | cons a as ih =>
+    have hnd := List.nodup_cons.1 (show (k a :: as.map k).Nodup from h)
+    rcases List.mem_cons.1 hx with rfl | hx'
+    · rcases List.mem_cons.1 hy with rfl | hy'
+      · rfl
+      · exact absurd (List.mem_map.2 ⟨y, hy', hk.symm⟩) hnd.1
+    · rcases List.mem_cons.1 hy with rfl | hy'
+      · exact absurd (List.mem_map.2 ⟨x, hx', hk⟩) hnd.1
+      · exact ih hnd.2 hx' hy'
+
 end Pkgcore.C21
